@@ -7,7 +7,7 @@
    pair_symmetry), so the sampled element is a function R of (min id, max id). *)
 From Coq Require Import List NArith ZArith Bool.
 Import ListNotations.
-Require Import V.base.Bytes V.model.Session.
+Require Import V.base.Bytes V.gen.SessionConsts V.model.Session.
 Local Open Scope N_scope.
 
 Section Przs.
